@@ -22,7 +22,7 @@ TITLE = 'Even-point insertion returns the documented candidates, height-filtered
 RULE = ('cases = (curve, reduction, knee subset, tx, ty, extremes), full product below the bound; non-trivial = at least one evenly spaced point was inserted '
         '(some retained segment / knee gap qualified)')
 ASSUMPTIONS = ['curves have non-constant x and y', 'w within 1e-9 of 2tx, h within 1e-9 of ty, or w/2tx within 1e-9 of an integer are ambiguous (every admissible output accepted)']
-BOUNDS = {'quick': {'curves': 'A12 n=3,4 complete; G12Y013 n=5 complete', 'reductions': 'all 2^(n-2)', 'knee subsets': 'size<=2 positions (even), size 1..2 (knees-as-markers)', '(tx,ty)': 3, 'extremes': 2},
+BOUNDS = {'quick': {'curves': 'A12 n=3,4 complete; G12Y013 n=5 complete; G12Y013 n=4 and Y013 n=5 re-embedded with y*2^-40, x*2^-40, (x,y)*2^30', 'reductions': 'all 2^(n-2)', 'knee subsets': 'size<=2 positions (even), size 1..2 (knees-as-markers)', '(tx,ty)': 3, 'extremes': 2},
           'thorough': {'curves': 'A n<=4, A12 n=5, A1 n=6', 'reductions': 'all', 'knee subsets': 'all positions (even), size 1..3 (markers)'}}
 TECHNIQUE = 'bounded-exhaustive enumeration of curves x all reductions x knee subsets x thresholds on the real functions against a reference that enumerates every admissible output under threshold ambiguity'
 LEVEL_TEXT = ('Model checking: every reduction and knee subset of every small non-flat curve, both variants, both settings of extremes; the output must be one of the admissible '
@@ -34,6 +34,9 @@ TXY = [(0.05, 0.05), (0.2, 0.3), (0.3, 0.1)]
 
 def units(tier, seed):
     plan = [('A12', 3, 1), ('A12', 4, 16), ('G12Y013', 5, 96)] if tier == 'quick' else [('A', 3, 2), ('A', 4, 64), ('A12', 5, 256), ('A1', 6, 128)]
+    for sx, sy in ((1.0, 2.0 ** -40), (2.0 ** -40, 1.0), (2.0 ** 30, 2.0 ** 30)):
+        plan.append((curves.scaled(curves.G12Y013 if tier == 'quick' else curves.A12, sx, sy).name, 4, 8))
+        plan.append((curves.scaled(curves.Y013, sx, sy).name, 5, 4))
     extra = [(0.1, 0.2), (0.25, 0.25), (0.125, 0.5), (0.4, 0.05), (0.15, 0.15), (0.05, 0.6)][seed % 6]
     return [(prof, n, k, K, tier, extra) for prof, n, K in plan for k in range(K)]
 
